@@ -115,7 +115,7 @@ def run_verus_unit(prop, unit_name, tier):
         raise Undecided(f"{unit_name}: extraction failed (lost anchor / unsupported shape): {e}")
     rlimit = "20" if tier == "quick" else "80"
     cmd = ["verus", unit_path, "--output-json", "--time", "--rlimit", rlimit, "--multiple-errors", "4",
-           "--num-threads", "14"]
+           "--num-threads", "14", "--triggers-mode", "silent"]
     t0 = time.time()
     p = subprocess.run(cmd, stdout=subprocess.PIPE, stderr=subprocess.PIPE, text=True, cwd=outdir)
     res = VerusResult(unit_name)
@@ -183,11 +183,41 @@ def parse_errors(stderr, u, unit_path):
                 l2 = label_of(u, s)
                 if l2 and l2 != label:
                     label2 = l2
-            errs.append({"msg": msg, "line": line, "label": label, "at": label2, "text": "\n".join(blk)[:3000]})
+            unit_lines = u.out_lines
+            where_line = max(sec) if sec else line
+            fn, impl = enclosing(unit_lines, where_line) if where_line else (None, None)
+            errs.append({"msg": msg, "line": line, "label": label, "at": label2, "fn": fn, "impl": impl,
+                         "text": "\n".join(blk)[:3000]})
             i = j
         else:
             i += 1
     return errs
+
+
+FN_RE = re.compile(r"^\s*(?:pub(?:\([a-z]+\))?\s+)?(?:(?:proof|exec|spec|broadcast|open|closed|const|uninterp|unsafe)\s+)*fn\s+([A-Za-z_0-9]+)")
+IMPL_RE = re.compile(r"^\s*(impl\b.*?)\s*\{?\s*$")
+
+
+def enclosing(unit_lines, line):
+    """(fn name, impl header) enclosing a 1-based line of the generated unit"""
+    fn = None
+    impl = None
+    i = min(line, len(unit_lines)) - 1
+    while i >= 0:
+        t = unit_lines[i]
+        if fn is None:
+            m = FN_RE.match(t)
+            if m:
+                fn = m.group(1)
+        if t.startswith("impl") or t.startswith("pub trait") or t.startswith("trait"):
+            impl = t.strip().rstrip("{").strip()
+            break
+        if fn is not None and (t.startswith("}") or t.startswith("pub ") or t.startswith("fn ") or t.startswith("proof ")):
+            # top-level function: no impl
+            if FN_RE.match(t) and not t.startswith(" "):
+                break
+        i -= 1
+    return fn, impl
 
 
 def label_of(u, line):
@@ -222,11 +252,7 @@ def classify(res, vr):
         if any(k in e["msg"] for k in ("rlimit", "Resource limit", "timed out")):
             undecided.append(f"{res.unit}: {e['msg']}")
             continue
-        incanary = False
-        for ln in re.findall(r"^\s*(\d+)\s*\|.*canary_", txt, re.M):
-            incanary = True
-        lab = e["label"] or ""
-        if incanary or "canary_" in lab:
+        if (e.get("fn") or "").startswith("canary_"):
             continue
         failed.append(e)
     if res.canaries_bad:
@@ -243,8 +269,11 @@ def classify(res, vr):
 
 def obligation_name(unit, e):
     kind = e["msg"].split(":")[0].strip().replace(" ", "_")
-    where = e.get("at") or e.get("label") or "?"
-    return f"{unit}/{where}/{kind}"
+    where = e.get("fn") or "?"
+    if e.get("impl"):
+        where = re.sub(r"\s+", " ", e["impl"]) + " :: " + where
+    src = e.get("at") or e.get("label")
+    return f"{unit}/{where}/{kind}" + (f" [{src}]" if src else "")
 
 
 # ------------------------------------------------------------------ Kani
